@@ -194,13 +194,24 @@ def singleEffectDef (sids : List Int) (tids : List (List Int)) (obs : List α) (
 /-- `np.prod` of a list -/
 def prodL (l : List α) : α := l.foldl (· * ·) 1
 
-/-- the inner loop: collect the single effects of the non-control treatments; an unmeasured one is
-    refused (`strict`) or skipped -/
+/-- one iteration of the inner loop: an unmeasured agent is refused (`strict`) or skipped -/
+def collectStep (map : List ((Int × Int) × α)) (strict : Bool) (s : Int) (effs : List α) (t : Int) :
+    Except Err (List α) :=
+  match map.lookup (s, t) with
+  | none => if strict then .error .valueError else .ok effs
+  | some e => .ok (effs ++ [e])
+
+/-- the inner loop: collect the single effects of the non-control treatments -/
 def collectEffects (map : List ((Int × Int) × α)) (strict : Bool) (s : Int) (cur : List Int) : Except Err (List α) :=
-  cur.foldlM (fun effs t =>
-    match map.lookup (s, t) with
-    | none => if strict then .error .valueError else .ok effs
-    | some e => .ok (effs ++ [e])) []
+  cur.foldlM (collectStep map strict s) []
+
+/-- one iteration of the outer loop over the non-single rows `(sample, treatment row, observation)` -/
+def synergyStep (map : List ((Int × Int) × α)) (strict : Bool) (acc : List (Int × List Int × α))
+    (r : Int × List Int × α) : Except Err (List (Int × List Int × α)) := do
+  let cur := r.2.1.filter (fun t => t != -1)
+  let effs ← collectEffects map strict r.1 cur
+  if cur.length != effs.length then pure acc
+  else pure (acc ++ [(r.1, cur, prodL effs - r.2.2)])
 
 /-- `calculate_synergy`: `(sample id, non-control treatment ids, synergy)` per reported combination -/
 def synergy (arity : Nat) (sids : List Int) (tids : List (List Int)) (obs : List α) (strict : Bool) :
@@ -214,11 +225,7 @@ def synergy (arity : Nat) (sids : List Int) (tids : List (List Int)) (obs : List
     let mObs := maskFilter obs notSingle
     let mT := maskFilter tids notSingle
     let mS := maskFilter sids notSingle
-    (List.zip mS (List.zip mT mObs)).foldlM (fun acc (s, ts, o) => do
-      let cur := ts.filter (fun t => t != -1)
-      let effs ← collectEffects map strict s cur
-      if cur.length != effs.length then pure acc
-      else pure (acc ++ [(s, cur, prodL effs - o)])) []
+    (List.zip mS (List.zip mT mObs)).foldlM (synergyStep map strict) []
 
 /-! the definition -/
 
@@ -297,14 +304,19 @@ end corr
 section corrfull
 variable {α Θ : Type} [Add α] [Sub α] [Mul α] [Div α] [OfNat α 0] [OfCount α] [Sqrt α]
 
+/-- one loop iteration of `correlation_matrix`: the averaged viability prediction of sample `s` over
+    its full combinatoric space -/
+def samplePrediction (nan : α → Bool) (viab : Θ → PScreen → Except Err (List α)) (declared : Nat) (thetas : List Θ)
+    (arity : Nat) (tmapIds smapIds : List Int) (s : Int) : Except Err (List α) := do
+  let space ← fullSpace arity tmapIds smapIds s
+  Predict.predictAvg nan (fun θ => viab θ space) space.size declared thetas
+
 /-- `correlation_matrix(screen, thetas)`: for every sample id present in the screen (ascending), the
     averaged viability prediction over the full combinatoric space; then `corrOfPredictions`.
     (`np.stack` of an empty list raises ValueError.) -/
 def correlationMatrix (nan : α → Bool) (viab : Θ → PScreen → Except Err (List α)) (declared : Nat) (thetas : List Θ)
     (arity : Nat) (tmapIds smapIds : List Int) (screenSids : List Int) : Except Err (List (List α)) := do
-  let preds ← (uniqueSorted screenSids).mapM (fun s => do
-    let space ← fullSpace arity tmapIds smapIds s
-    Predict.predictAvg nan (fun θ => viab θ space) space.size declared thetas)
+  let preds ← (uniqueSorted screenSids).mapM (samplePrediction nan viab declared thetas arity tmapIds smapIds)
   if preds.isEmpty then .error .valueError else pure (corrOfPredictions preds)
 
 end corrfull
